@@ -70,6 +70,12 @@ BOUNDS_DOC = {
 BUDGET = {"quick": 100, "thorough": 1150}
 
 L = 4
+BIG_L = 1 << 20  # the 'big' family: payload sizes around the 7-bit / 16-bit / 64-bit length encodings of RFC 6455 5.2
+
+
+def limit_of(family: str) -> int:
+    return BIG_L if family == "big" else L
+
 
 T = lambda s: ("t", s)  # noqa: E731
 B = lambda b: ("b", b)  # noqa: E731
@@ -84,6 +90,7 @@ R6 = [T("a"), T("abcd"), T("abcde"), B(b"\x00"), B(b"abcd"), B(b"abcde")]
 R4 = [T("abcd"), T("abcde"), B(b"\x00"), B(b"abcde")]
 PING_MSGS = [T("é€"), B(b"\x01\x02\x03"), T("abcde")]
 
+BIG_SIZES = (125, 126, 127, 65535, 65536, 70000)
 ENGINES = ("asyncio", "trio")
 CARRIERS = ("ws/h1", "ws/h2")
 APP = [("recv",), ("send", {"type": "websocket.accept"}), ("echo_ws",)]
@@ -151,8 +158,13 @@ def plan(params: tuple, pick: Callable[[int, str], int]) -> dict:
         return case
     stream = b"".join(it[2] for it in items)
     n = len(stream)
-    nopt = n + (1 if 1 < n <= BYTEWISE_MAX else 0)
-    s = pick(max(nopt, 1), "split")
+    if family == "big":  # large payloads: the unsplit stream and a lattice of split points around the frame header
+        lattice = [0] + sorted({1, 2, 3, 4, 5, 9, 10, 11, 15, n // 2, n - 1} & set(range(1, n)))
+        s = lattice[pick(len(lattice), "split")]
+        nopt = n
+    else:
+        nopt = n + (1 if 1 < n <= BYTEWISE_MAX else 0)
+        s = pick(max(nopt, 1), "split")
     if n == 0:
         segs: List[bytes] = []
     elif s == 0:
@@ -186,7 +198,7 @@ def build(params: tuple, pick: Callable[[int, str], int]) -> tuple:
     sched = family == "sched"
     sources = [("client", client + tail)]
     sc = {"level": "conn", "conns": {0: conn}, "client_factory": make_guard_client, "apps": {"websocket": APP},
-          "config": {"websocket_max_message_size": L}, "sources": sources, "midflight": sched,
+          "config": {"websocket_max_message_size": limit_of(family)}, "sources": sources, "midflight": sched,
           "trio_rev": sched}
     return engine, sc, case
 
@@ -211,6 +223,12 @@ def scenarios(tier: str) -> List[Any]:
             for c in CARRIERS:
                 for ms in ((T("a"), B(b"abcd")), (T("abcd"), B(b"abcde"), T("a"))):
                     out.append(("sched", e, c, False, ms, 2, "mid", "p"))
+        for e, c, d in combos:
+            # (over HTTP/2 one read of the harness client is one DATA frame: it has to fit the 16 384 byte frame size)
+            sizes = BIG_SIZES if c == "ws/h1" else (125, 126, 127, 8000, 16000)
+            for n in sizes:
+                out.append(("big", e, c, d, (B(bytes([n % 251]) * n),), 1, "none", "none"))
+            out.append(("big", e, c, d, (T("x" * 126), B(b"y" * (65536 if c == "ws/h1" else 16000))), 1, "none", "none"))
     else:
         for e, c, d in combos:
             for m in ALPHABET:
@@ -248,7 +266,7 @@ def bounds(tier: str, params: Any) -> dict:
 def required_pongs(case: dict) -> Tuple[List[bytes], List[bytes]]:
     """(payloads of the pings the server must answer, payloads of all pings), in sending order."""
     msgs, deflate = case["msgs"], case["deflate"]
-    over = first_oversize(msgs, L)
+    over = first_oversize(msgs, limit_of(case["family"]))
     frames = case["frames"]
     allp: List[bytes] = []
     req: List[bytes] = []
@@ -273,7 +291,7 @@ def required_pongs(case: dict) -> Tuple[List[bytes], List[bytes]]:
                 ok = False
             else:
                 prefix = case["payloads"][mi][:off]
-                ok = decodable_size(msgs[mi], prefix, deflate, bases[mi].copy() if deflate else None) <= L
+                ok = decodable_size(msgs[mi], prefix, deflate, bases[mi].copy() if deflate else None) <= limit_of(case["family"])
         still = still and ok
         if still:
             req.append(pay)
@@ -322,7 +340,7 @@ def oracle(w: Any, params: Any, case: dict) -> List[dict]:
         out.append(V("delivery", f"{tag2}:unexpected-type:{odd[0]}", types))
     got = [(m.get("bytes"), m.get("text")) for m in delivered if m["type"] == "websocket.receive"]
     got = [(None if b is None else bytes(b), t) for b, t in got]
-    over = first_oversize(msgs, L)
+    over = first_oversize(msgs, limit_of(case["family"]))
     exp_msgs = msgs if over is None else msgs[:over]
     exp = [expected_receive(m) for m in exp_msgs]
     if got != exp:
